@@ -2,19 +2,49 @@
 from session_common import *
 
 ID = 'C01'
-COQ_TARGETS = ['Props/Properties_C01.vo']
-PROPS_FILES = ['Props/Properties_C01.v']
-THEOREMS = ['C01_remote_rcpt_needs_relay', 'C01_auth_only_from_backend', 'C01_envelope_is_accepted_only']
-ENGINES = [ENGINE]
+COQ_TARGETS = ['Props/Properties_C01.vo', 'Props/Properties_C01t.vo']
+PROPS_FILES = ['Props/Properties_C01.v', 'Props/Properties_C01t.v']
+THEOREMS = ['C01_remote_rcpt_needs_relay', 'C01_auth_only_from_backend', 'C01_envelope_is_accepted_only',
+            'C01t_verify_positive_only_if', 'C01t_verify_complete', 'C01t_embedded_nul_never_matches', 'C01t_fails_closed',
+            'C01t_tlsclient_set_exactly_then', 'C01t_checked_once', 'C01t_no_retry', 'C01t_check_at_most_once',
+            'C01t_error_never_entitles', 'C01t_relayclient_only_if', 'C01t_is_authenticated_positive_only_if',
+            'C01t_connection', 'C01t_checker_sound']
+TLSVERIFY = dict(name='tlsverify', c_sources=['tlsverify_h.c'], extract='Extract/Extract_tlsverify.v', driver='tlsverify_driver.ml',
+                 glue=('glue.ml', 'glue_z.ml'), accepts=lambda c: c.startswith('7c '), shrink_from=2)
+ENGINES = [ENGINE, TLSVERIFY]
 RULE = ('sessions aimed at the relay decision: relayclients / relayclients6 absent, listing the client, listing another network, with a size that is not a '
         'multiple of the record size, with an invalid prefix length, unreadable; IPv4-mapped and IPv6 clients; remote recipients before and after local ones, '
         'repeated after an error, across RSET and several transactions; AUTH PLAIN attempts (right and wrong password, malformed, unknown mechanism, backend crash, '
         'repeated, inside a transaction, with and without a configured backend) mixed with HELO/EHLO/RSET and remote recipients; plus the general session histories. non-trivial = a remote recipient was attempted '
-        'and a DATA was accepted, or a hand-off happened; distinct by case text')
-TRUSTED_BASE = TRUSTED_COMMON
+        'and a DATA was accepted, or a hand-off happened; distinct by case text. '
+        'Engine tlsverify (unit: tls_verify / tls_check_cert / is_authenticated with OpenSSL and the file system as scripted oracles): sequences of 1-6 calls, '
+        'each the all-succeeds configuration with 0-3 oracles turned (no TLS, AUTH name set, relay list absent/listed/error, tlsclients unreadable with several errno '
+        'values / absent / list, CA file, session id context, rehandshake ok / ETIMEDOUT / EPROTO / other, verification result, no certificate, strdup failure, '
+        'net_writen failure); subject names aimed at the comparison: listed emailAddress or commonName, listed name + NUL + suffix, NUL first / last / inside at equal '
+        'length, proper prefix, one octet more, other case, unlisted emailAddress in front of a listed commonName, empty emailAddress, two emailAddress entries, '
+        'other attribute types, entries of tlsclients that are prefixes of each other; start states relayclient 0/1/2/3, ssl_verified 0/1; non-trivial there = '
+        'the certificate was looked at in a sequence of several calls, or a call was entitled by certificate')
+TRUSTED_BASE = TRUSTED_COMMON + [
+    'engine tlsverify: hand-written model coq/Model/TlsVerify.v (tls_verify, tls_check_cert, tls_out, is_authenticated, is_authenticated_client), tied to the C by '
+    'harness/tlsverify_h.c: qsmtpd/starttls.c and qsmtpd/commands.c #included unchanged in one translation unit, real libcrypto for the X509 name / ASN1 string '
+    'functions on a certificate built from the case, real SSL object; scripted: openat, lookupipbl, loadlistfd, SSL_load_client_CA_file, '
+    'SSL_set_session_id_context, ssl_timeoutrehandshake, SSL_get_verify_result, SSL_get_peer_certificate, strdup, net_writen, dieerror (longjmp); compared per '
+    'call: result, relayclient, ssl_verified, xmitstat.tlsclient, order of the oracle calls',
+    'translator tools/translators/tlsverify.py: structure of tls_verify / tls_check_cert / tls_out / is_authenticated / is_authenticated_client checked by regular '
+    'expressions (a change is a translator error), emitted: NID order, success value of SSL_set_session_id_context, X509_V_OK (system header), EDONE, '
+    'ETIMEDOUT / EPROTO / ENOMEM (python errno of the build machine)',
+    'ocaml/tlsverify_driver.ml (case parsing, mapping of the relay-list scenario octet to the value of lookupipbl_name, printing)',
+]
 ASSUMPTIONS = ASSUMPTIONS_COMMON + [
     'the relay list lookup itself (check_ipbl_file / ip4_matchnet) is property C16; here its outcome is an oracle, instantiated per configuration',
-    'SMTP AUTH and TLS client certificates as further entitlements are not exercised (no backend / no certificate in the harness): partial for those two disjuncts',
+    'engine session: TLS client certificates are not exercised there (no TLS in the whole-program harness); they are the subject of engine tlsverify',
+    'engine tlsverify: OpenSSL is an oracle - that X509_V_OK means "the chain verifies against clientca.pem (and the CRL)" is OpenSSL\'s business together with '
+    'tls_init() (SSL_CTX_load_verify_locations(CLIENTCA), verify_callback accepting every chain so that only SSL_get_verify_result() decides); every ASN1 string '
+    'OpenSSL hands out has a NUL octet behind its data (ASN1_STRING_set; the harness uses real ASN1 strings); net_writen() returns 0 or -errno, never a positive '
+    'value (hypothesis netw_ok of the theorems, cases violating it are outside the precondition); errno is not negative (type N in the model); loadlistfd() '
+    'returns C strings (its own correctness is C16/C20); the session model does not contain this stage, so the composition "RCPT TO 2xx for a remote address '
+    'implies relay list or AUTH or certificate" is the conjunction of C01_remote_rcpt_needs_relay (stated for sessions without TLS) and the C01t theorems about '
+    'is_authenticated(), not one theorem',
 ]
 LEVEL_TEXT = ('Coq theorems for all oracles and all client byte streams: a recipient outside rcpthosts gets 2xx only if the relay-list lookup returned a match '
               '(> 0) or an AUTH succeeded earlier on the same connection (a NAuth note, emitted with the 235 reply, stands before it; neither RSET, HELO/EHLO, '
@@ -23,9 +53,17 @@ LEVEL_TEXT = ('Coq theorems for all oracles and all client byte streams: a recip
               'appears only where a backend is configured and the mechanism handler reported success for that name; every hand-off envelope consists of '
               'accepted recipients only. Tied to the binary by whole-program runs with all kinds of relay list for v4 and v6 clients and AUTH PLAIN attempts '
               'against a checkpassword stand-in.')
-LEVEL_NOTE = ('Partial: the TLS client certificate entitlement (tls_verify) is outside the model; multi-line AUTH exchanges (LOGIN, PLAIN without initial '
+LEVEL_TEXT += (' Third entitlement (engine tlsverify, theorems C01t_*): for all oracle values, start states and call sequences tls_verify() > 0 only if TLS is '
+               'active, the check has not run on this connection, tlsclients gave a list, the CA file loaded, the session id context was set, the rehandshake '
+               'succeeded, the verification result is X509_V_OK, a certificate is present and its emailAddress (only without one: commonName) equals an entry of '
+               'tlsclients octet for octet (a name containing NUL never matches), and conversely (C01t_verify_complete); xmitstat.tlsclient is set exactly then; every '
+               'failing step fails closed; the check runs at most once per connection and a first negative result is never retried; is_authenticated() sets '
+               'relayclient to 1 only by relay list or entitling certificate and never together with an error result.')
+LEVEL_NOTE = ('Partial: the certificate stage is proved at unit level (tls_verify / is_authenticated with oracles) and is not part of the whole-session model, so '
+              'the session theorem and the certificate theorems are two layers; OpenSSL chain verification is an oracle; multi-line AUTH exchanges (LOGIN, PLAIN without initial '
               'response) end the modelled session (their logic is property C09); lookup internals are C16.')
-TECHNIQUE = 'Coq invariant proof over the session model (cached relay decision, authentication flag in step with the trace) as part of the simulation; whole-program differential run over relay-list kinds'
+TECHNIQUE = ('Coq invariant proof over the session model (cached relay decision, authentication flag in step with the trace) as part of the simulation; whole-program differential run over relay-list kinds; '
+             'literal oracle model of tls_verify/tls_check_cert/is_authenticated with case-analysis proofs and induction over call sequences, unit differential run against the real functions with scripted OpenSSL')
 DESIGN_REF = 'DESIGN.md section 5, C01'
 
 
@@ -56,7 +94,126 @@ def literal_session(rng, lip):
     return chunks
 
 
+# ------------------------------------------------------------------ engine tlsverify (TLS client certificate, unit level)
+TV_ADDRS = [b'a@b.c', b'ab@b.c', b'a@b.cd', b'A@b.c', b'user@example.org', b'host.example.org', b'x', b'a@b',
+            b'relay-1.example.net', b'u' * 60 + b'@example.org']
+EMAIL, CN, ORG = 1, 2, 3
+
+
+def tv_subject(ents):
+    return R.hx(b''.join(bytes([t, len(d)]) + d for t, d in ents))
+
+
+def tv_names(rng, listed, others):
+    """subject name aimed at the case splits of tls_check_cert: which entry is chosen, how it compares"""
+    t = rng.choice(listed) if listed else b'a@b.c'
+    o = rng.choice(others)
+    kind = rng.choice(['email', 'email', 'cn', 'nulprefix', 'nulprefix', 'prefix', 'longer', 'case', 'email_unlisted_cn_listed',
+                       'empty_email_cn_listed', 'two_emails_second_listed', 'two_emails_first_listed', 'nul_first', 'none', 'org_only',
+                       'org_then_email', 'cn_then_email', 'nul_inside_same_len', 'unlisted', 'cn_nulprefix', 'nul_suffix', 'random'])
+    if kind == 'email': return [(EMAIL, t)]
+    if kind == 'cn': return [(CN, t)]
+    if kind == 'nulprefix': return [(EMAIL, t + b'\0' + rng.choice([b'', b'x', b'.evil.example', o]))]
+    if kind == 'cn_nulprefix': return [(CN, t + b'\0' + o)]
+    if kind == 'nul_suffix': return [(rng.choice([EMAIL, CN]), t + b'\0')]
+    if kind == 'prefix': return [(EMAIL, t[:max(1, len(t) - rng.choice([1, 2]))])]
+    if kind == 'longer': return [(EMAIL, t + rng.choice([b'x', b'.', b' ']))]
+    if kind == 'case': return [(EMAIL, t.swapcase())]
+    if kind == 'email_unlisted_cn_listed': return [(EMAIL, o), (CN, t)]
+    if kind == 'empty_email_cn_listed': return [(EMAIL, b''), (CN, t)]
+    if kind == 'two_emails_second_listed': return [(EMAIL, o), (EMAIL, t)]
+    if kind == 'two_emails_first_listed': return [(EMAIL, t), (EMAIL, o)]
+    if kind == 'nul_first': return [(EMAIL, b'\0' + t)]
+    if kind == 'none': return []
+    if kind == 'org_only': return [(ORG, t)]
+    if kind == 'org_then_email': return [(ORG, o), (EMAIL, t)]
+    if kind == 'cn_then_email': return [(CN, o), (EMAIL, t)]
+    if kind == 'nul_inside_same_len':
+        k = rng.randrange(len(t))
+        return [(EMAIL, t[:k] + b'\0' + t[k + 1:])]
+    if kind == 'unlisted': return [(rng.choice([EMAIL, CN]), o)]
+    n = rng.choice([0, 1, 2, 3])
+    return [(rng.choice([EMAIL, CN, ORG]), bytes(rng.choice([0, 0x40, 0x61, 0x62, 0x2e, 0x63]) for _ in range(rng.choice([0, 1, 3, 5, 6]))))
+            for _ in range(n)]
+
+
+def tv_call(rng, op=None):
+    """one call: mostly the configuration in which everything succeeds, with one or two oracles turned"""
+    listed = rng.sample(TV_ADDRS, rng.choice([0, 1, 1, 2, 3, 5]))
+    if listed and rng.random() < 0.3:          # entries that are prefixes / extensions of each other
+        listed.append(listed[0][:-1] if len(listed[0]) > 1 else listed[0] + b'x')
+        rng.shuffle(listed)
+    others = [a for a in TV_ADDRS if a not in listed] or [b'nobody@example.com']
+    v = dict(op=rng.choice([0, 1, 1]) if op is None else op, fl=1, ipbl=rng.choice([0, 1, 1]), lm=2, len=0, ca=1, sid=1, hs=rng.choice([0, 0, 1]),
+             vr=0, peer=1, dup=1, nw=0)
+    for _ in range(rng.choice([0, 0, 0, 1, 1, 1, 2, 3])):
+        k = rng.choice(['fl', 'fl', 'ipbl', 'lm', 'lm', 'ca', 'sid', 'hs', 'hs', 'vr', 'vr', 'peer', 'dup', 'nw'])
+        v[k] = {'fl': lambda: rng.choice([0, 2, 3]), 'ipbl': lambda: rng.choice([2, 3, 3]), 'lm': lambda: rng.choice([0, 0, 1]),
+                'ca': lambda: 0, 'sid': lambda: rng.choice([0, 0, 2, 255]), 'hs': lambda: rng.choice([256 - 110, 256 - 71, 255, 256 - 104, 256 - 5]),
+                'vr': lambda: rng.choice([18, 20, 10, 2, 1, 21, 23, 255]), 'peer': lambda: 0, 'dup': lambda: 0,
+                'nw': lambda: rng.choice([256 - 32, 255, 256 - 104, 256 - 32, 1])}[k]()
+        if k == 'lm' and v['lm'] == 0:
+            v['len'] = rng.choice([0, 2, 12, 13, 24])
+        if k in ('sid', 'hs') and rng.random() < 0.5:
+            v['nw'] = rng.choice([0, 256 - 32, 255])
+    a = bytes([v['op'], v['fl'], v['ipbl'], v['lm'], v['len'], v['ca'], v['sid'], v['hs'], v['vr'], v['peer'], v['dup'], v['nw']])
+    return R.hx(a) + ' ' + R.hx(b'\0'.join(listed)) + ' ' + tv_subject(tv_names(rng, listed, others))
+
+
+TV_FREE = R.hx(bytes([2] + [0] * 11)) + ' - -'       # end of a transaction (freedata)
+
+
+def tv_case(rng):
+    init = bytes([rng.choice([0, 0, 0, 0, 2, 2, 1, 3]), rng.choice([0, 0, 0, 0, 0, 1])])
+    n = rng.choice([1, 1, 2, 2, 3, 4, 6])
+    same_op = rng.choice([None, None, 0, 1])
+    calls = []
+    for _ in range(n):
+        if calls and rng.random() < 0.2:
+            calls.append(TV_FREE)
+        calls.append(tv_call(rng, same_op))
+    return '7c ' + R.hx(init) + ' ' + ' '.join(calls)
+
+
+_session_nontrivial, _session_distribution = nontrivial, distribution
+
+
+def _tv_has_nul(case):
+    for f in case.split()[4::3]:
+        b = bytes.fromhex(f) if f != '-' else b''
+        i = 0
+        while i + 2 <= len(b) and i + 2 + b[i + 1] <= len(b):
+            if 0 in b[i + 2:i + 2 + b[i + 1]]:
+                return True
+            i += 2 + b[i + 1]
+    return False
+
+
+def nontrivial(case, c_out):
+    if case.startswith('7c '):
+        # the certificate was looked at (letter P) in a sequence of at least two calls, or a call succeeded by certificate
+        return ('P' in c_out and len(c_out.split()) > 1) or 'PD' in c_out
+    return _session_nontrivial(case, c_out)
+
+
+def distribution(results):
+    d = _session_distribution([r for r in results if not r['case'].startswith('7c ')])
+    tv = [r for r in results if r['case'].startswith('7c ')]
+    d['tlsverify_cases'] = len(tv)
+    calls = [t for r in tv for t in r['c'].split()]
+    d['tlsverify_calls'] = len(calls)
+    d['tlsverify_entitled'] = sum(1 for t in calls if t.endswith('PD') and t.startswith('r1,'))
+    d['tlsverify_certificate_compared_no_match'] = sum(1 for t in calls if t.endswith('P'))
+    d['tlsverify_errors'] = sum(1 for t in calls if t.startswith('r-'))
+    d['tlsverify_died'] = sum(1 for t in calls if t.startswith('die'))
+    d['tlsverify_skipped_by_ssl_verified'] = sum(1 for t in calls if t.endswith(',1,null,-') or t.endswith(',1,null,B'))
+    d['tlsverify_cases_with_nul_in_subject'] = sum(1 for r in tv if _tv_has_nul(r['case']))
+    return d
+
+
 def gen_cases(engine, rng, tier):
+    if engine == 'tlsverify':
+        return [tv_case(rng) for _ in range(4000 if tier == 'quick' else 150000)]
     n = 300 if tier == 'quick' else 6000
     out = []
     for _ in range(n // 2):
